@@ -466,7 +466,34 @@ def check_dynamic_dead_end(repo, scratch):
     return res
 
 
-CHECKS = {"dynamic_dead_end": check_dynamic_dead_end, "lookahead": check_lookahead, "atom_ord": check_atom_ord, "atom_guards": check_atom_guards, "cmp_instrs": check_cmp_instrs, "switch_routes": check_switch_routes, "arith_tables": check_arith_tables}
+def check_arith_interm(repo, scratch):
+    """C03 (compiled path): the value of every compound (sub)expression is written to a register taken from the pool of
+    free temporaries (contract regalloc::DebrayAllocator_alloc_reg_to_non_var: not in use before, in use after) -- never
+    to the argument register of the goal, which for an inlined comparison may still hold a clause variable."""
+    base = "structural::arith_interm::"
+    res = {"obligations": [base + "deep_level", base + "fresh_from_pool"], "failed": [], "undecided": [],
+           "assumptions": ["[structural:arith_interm] `in_use` contains the register of every live temporary variable of the chunk (allocator invariant, read, not verified)"],
+           "functions": [{"name": "ArithmeticEvaluator::compile_is (Op arm)", "file": "src/arithmetic.rs", "engine": "structural", "unit": "arith_interm", "under_contract": True},
+                         {"name": "DebrayAllocator::mark_non_var (non-shallow arm)", "file": "src/debray_allocator.rs", "engine": "structural", "unit": "arith_interm", "under_contract": True}]}
+    t = _fn_text(repo, "src/arithmetic.rs", "compile_is")
+    if not t:
+        res["undecided"].append(base + "deep_level: compile_is not found (lost anchor)")
+    else:
+        calls = re.findall(r"mark_non_var :: < QueryInstruction > \( (.*?) ,", t)
+        if not calls:
+            res["undecided"].append(base + "deep_level: no mark_non_var call in compile_is (lost anchor)")
+        elif any(c != "Level :: Deep" for c in calls):
+            res["failed"].append({"obligation": base + "deep_level", "engine": "structural", "source": "ArithmeticEvaluator::compile_is", "at": "src/arithmetic.rs",
+                                  "message": "an operator cell is marked with level `%s`: at Level::Shallow the value goes to the goal's argument register, which an inlined comparison does not evacuate" % [c for c in calls if c != "Level :: Deep"][0]})
+    t = _fn_text(repo, "src/debray_allocator.rs", "mark_non_var")
+    if not t:
+        res["undecided"].append(base + "fresh_from_pool: mark_non_var not found (lost anchor)")
+    elif " ".join(x.text for x in _sig(lex("_ if r.reg_num() == 0 => RegType::Temp(self.alloc_reg_to_non_var()),"))).replace(": :", "::").replace("= >", "=>") not in t:
+        res["undecided"].append(base + "fresh_from_pool: the arm taking a fresh register is not recognised (lost anchor)")
+    return res
+
+
+CHECKS = {"arith_interm": check_arith_interm, "dynamic_dead_end": check_dynamic_dead_end, "lookahead": check_lookahead, "atom_ord": check_atom_ord, "atom_guards": check_atom_guards, "cmp_instrs": check_cmp_instrs, "switch_routes": check_switch_routes, "arith_tables": check_arith_tables}
 
 
 def watch_hashes(repo, items):
